@@ -620,7 +620,34 @@ pub fn run(scn: &Scenario, schedule: Option<&[u8]>, order: Option<&[usize]>) -> 
         }
     }
 
+    let used_by_threads: Vec<usize> = scn
+        .threads
+        .iter()
+        .flatten()
+        .filter_map(|c| if let Call::Resolve(k) | Call::DropReq(k) = c { Some(*k) } else { None })
+        .collect();
     let has_drop = scn.threads.iter().flatten().any(|c| matches!(c, Call::DropReq(_)));
+    // setup handles that are subscriptions: those resolved more than once by the scenario, or whose
+    // setup program is a plain stream
+    let stream_setup_handles: Vec<usize> = {
+        let mut v = vec![];
+        let mut idx = 0;
+        for ev in &scn.setup {
+            if let Event::Start(p) | Event::StartLegacy(p) = ev {
+                let n = match p {
+                    P::Stream(_) => {
+                        v.push(idx);
+                        1
+                    }
+                    P::Join(..) | P::Select(..) => 2,
+                    P::All(m) => m.len(),
+                    _ => 1,
+                };
+                idx += n;
+            }
+        }
+        v
+    };
     // ---- evaluate (single-threaded, controller off)
     let mut out = Outcome {
         effects: vec![],
@@ -677,11 +704,22 @@ pub fn run(scn: &Scenario, schedule: Option<&[u8]>, order: Option<&[usize]>) -> 
             // (live subscriptions must still deliver; evicted tasks show as missing events)
             let mut after_effects = vec![];
             let mut pending: Vec<(ObsEff, Handle)> = new_handles;
-            for (_, h) in leftover {
-                // leftover stream handles of the threads: one more item each
+            for (k, h) in leftover {
+                // leftover handles of the threads: one more item each for streams. An answered
+                // one-shot must not be answered again through the bridge (its id is forgotten and
+                // may have been handed to a newer request: shell misuse, documented panic).
+                if matches!(h, Handle::Wire { .. }) && !stream_setup_handles.contains(&k) {
+                    continue;
+                }
                 pending.push((ObsEff { label: 9999, arg: 0, tags: 0, is_b: false }, h));
             }
-            for h in handles.into_iter().flatten() {
+            for (k, h) in handles.into_iter().enumerate() {
+                let Some(h) = h else { continue };
+                // wire handles are shared with the threads by copy: one the threads have answered is
+                // only still answerable if it is a subscription
+                if matches!(h, Handle::Wire { .. }) && used_by_threads.contains(&k) {
+                    continue;
+                }
                 pending.push((ObsEff { label: 9998, arg: 0, tags: 0, is_b: false }, h));
             }
             let mut round = 0;
@@ -1025,6 +1063,21 @@ pub fn scenarios(thorough: bool) -> Vec<Scenario> {
             threads: vec![vec![Call::Event(start(P::Notify(s(6)))), Call::Resolve(0)], vec![Call::Resolve(1)]],
         },
     ];
+    v.push(Scenario {
+        name: "S17 two threads deliver events through the Bridge; each registers a request (ids must not collide, routing must hold)",
+        sys: Sys::Bridge,
+        setup: vec![],
+        threads: vec![
+            vec![Call::Event(start(P::All(vec![P::Req(s(2)), P::Notify(s(4))])))],
+            vec![Call::Event(start(P::ReqReq(s(6), s(8))))],
+        ],
+    });
+    v.push(Scenario {
+        name: "S18 bridge: A answers a one-shot whose continuation registers a new request || B delivers an event that registers one",
+        sys: Sys::Bridge,
+        setup: vec![start(P::ReqReq(s(2), s(4)))],
+        threads: vec![vec![Call::Resolve(0)], vec![Call::Event(start(P::Req(s(6))))]],
+    });
     if thorough {
         v.push(Scenario {
             name: "S15 three threads: two resolve a join, one delivers an event",
